@@ -394,7 +394,8 @@ def gen_step(rng, kind, names=(), cookies=()):
         step["headers"]["X-Token"] = rng.choice(["tokA", "tokB", "tokAB", "tokA~s1", "tokA~s1+s2", "tokB~s2", "tokC~s1+s3",
                                                  "tokA~s1", "tokfail500"])
     if kind == "jwtAuthenticator":
-        step["headers"]["X-Token"] = "JWT:%s:%s" % (rng.choice(["k1", "k2", "k12"]), rng.choice(["u1", "u2"]))
+        step["headers"]["X-Token"] = "JWT:%s:%s:%s" % (rng.choice(["k1", "k2", "k12"]), rng.choice(["u1", "u2"]),
+                                                      rng.choice(["issuer-1", "issuer-2"]))
     return step
 
 
@@ -415,18 +416,24 @@ def gen_mech(rng, kind):
         ep = gen_endpoint(rng, True, "/intro")
         m["ep"] = ep
         m["ttl"] = rng.choice(["10m", "5m", None])
-        for _ in range(rng.choice([1, 2, 3])):
-            o = {}
-            if rng.random() < 0.8:
-                o["assertions"] = {"scopes": rng.choice([["s1"], ["s2"], ["s1", "s2"], ["s3"]])}
-            if rng.random() < 0.3:
-                o["cache_ttl"] = rng.choice(["7m", "1h"])
-            if not o:
-                o["allow_fallback_on_error"] = True
+        # assertions of the mechanism itself: rules using it as is are validated under these
+        m["scopes"] = rng.choice([None, ["s1"], ["s1", "s2"], ["s2"]])
+        for _ in range(rng.choice([1, 2, 3, 4])):
+            r = rng.random()
+            if r < 0.6:      # stricter or more lenient assertions than the mechanism's own
+                o = {"assertions": {"scopes": rng.choice([["s1"], ["s2"], ["s1", "s2"], ["s3"], ["s1", "s2", "s3"]])}}
+                if rng.random() < 0.2:
+                    o["cache_ttl"] = rng.choice(["7m", "1h"])
+            elif r < 0.8:    # a variant that leaves the assertions (and the key) alone
+                o = {"cache_ttl": rng.choice(["7m", "1h"])}
+            else:
+                o = {"allow_fallback_on_error": True}
             m["overrides"].append(o)
     elif kind == "jwtAuthenticator":
         ep = gen_endpoint(rng, True, "/jwks")
         ep["method"] = rng.choice(["GET", ""])
+        if rng.random() < 0.5:      # one key set per issuer
+            ep["url"] = SRV + "/jwks/{{.TokenIssuer}}"
         m["ep"] = ep
         m["ttl"] = rng.choice(["10m", None])
     elif kind in ("remoteAuthorizer", "genericContextualizer"):
@@ -438,14 +445,20 @@ def gen_mech(rng, kind):
         m["ttl"] = rng.choice(["10m", "5m"])
         if kind == "remoteAuthorizer":
             m["fwd_resp"] = rng.sample(["X-R1", "X-R2"], rng.choice([0, 1, 2]))
-            m["expr"] = rng.choice([None, 1, 2])
+            m["expr"] = rng.choice([None, 1, 2, 2, 3])
         else:
             m["fwd_headers"] = rng.sample(NAMES, rng.choice([0, 1, 2]))
             m["fwd_cookies"] = rng.sample(COOKIES, rng.choice([0, 1, 2]))
-        for _ in range(rng.choice([0, 1, 2, 3])):
+        for _ in range(rng.choice([0, 1, 2, 3, 4])):
             o = {}
             r = rng.random()
-            if r < 0.3:
+            if kind == "remoteAuthorizer" and r < 0.15 and (vals or m["fwd_resp"]):
+                # a rule-level configuration that changes neither the key nor the expressions
+                if vals:
+                    o["values"] = copy.deepcopy(vals)
+                else:
+                    o["forward_response_headers_to_upstream"] = list(m["fwd_resp"])
+            elif r < 0.3:
                 o["values"] = {rng.choice(["a", "b", "d"]): gen_tpl(rng, ["sid", "hdr"], safe=True)}
             elif r < 0.5:
                 o["payload"] = gen_tpl(rng, ["sid", "hdr"], safe=True)
@@ -496,11 +509,13 @@ def mech_conf(m):
     if kind == "introspection":
         c = {"introspection_endpoint": endpoint_conf(m["ep"]), "assertions": {"issuers": ["issuer-1"]},
              "token_source": [{"header": "X-Token"}]}
+        if m.get("scopes"):
+            c["assertions"]["scopes"] = list(m["scopes"])
         if m["ttl"]:
             c["cache_ttl"] = m["ttl"]
         return c
     if kind == "jwtAuthenticator":
-        c = {"jwks_endpoint": endpoint_conf(m["ep"]), "assertions": {"issuers": ["issuer-1"]},
+        c = {"jwks_endpoint": endpoint_conf(m["ep"]), "assertions": {"issuers": ["issuer-1", "issuer-2"]},
              "jwt_source": [{"header": "X-Token"}], "validate_jwk": False}
         if m["ttl"]:
             c["cache_ttl"] = m["ttl"]
@@ -599,8 +614,11 @@ def mech_env(m, oi, step, srv, obs):
             ref = header_of(step, "X-Token").strip()
         else:
             defaults, md = {"Accept": "application/json"}, "GET"
-            ref = header_of(step, "X-Token").split(":")[1]
+            parts = header_of(step, "X-Token").split(":")
+            ref = parts[1]
         url = m["ep"]["url"].replace(SRV, srv)
+        if kind == "jwtAuthenticator":
+            url = url.replace("{{.TokenIssuer}}", parts[3] if len(parts) > 3 else "issuer-1")
         return {"sub": {"ep.Hash()": {"fn": "endpoint", "env": endpoint_env(m["ep"], srv, defaults, md)}},
                 "str": {"a.id": hx(m["id"]), "templatedURL": hx(url), "renderedURL": hx(url), "token": hx(ref),
                         "reference": hx(ref)}}
@@ -694,10 +712,24 @@ def mutate_step(rng, s, kind, names, cookies):
     if r < 0.3 and "X-Token" in s["headers"] and kind != "jwtAuthenticator":
         s["headers"]["X-Token"] = s["headers"]["X-Token"] + rng.choice(["x", "~s1", "+s2"])
     elif r < 0.3 and kind == "jwtAuthenticator":
-        s["headers"]["X-Token"] = "JWT:%s:%s" % (rng.choice(["k1", "k2", "k12"]), rng.choice(["u1", "u2", "u3"]))
+        s["headers"]["X-Token"] = "JWT:%s:%s:%s" % (rng.choice(["k1", "k2", "k12"]), rng.choice(["u1", "u2", "u3"]),
+                                                   rng.choice(["issuer-1", "issuer-2"]))
+    elif r < 0.4 and len(set(names)) >= 2:
+        # the value of one forwarded header moves to another one
+        a, b = rng.sample(sorted(set(names)), 2)
+        if s["headers"].get(a):
+            s["headers"][b] = s["headers"].pop(a)
+        else:
+            s["headers"][a] = s["headers"].pop(b, "") or "mv"
     elif r < 0.5 and names:
         n = rng.choice(list(names))
         s["headers"][n] = s["headers"].get(n, "") + "x"
+    elif r < 0.55 and len(set(cookies)) >= 2:
+        a, b = rng.sample(sorted(set(cookies)), 2)
+        if s["cookies"].get(a):
+            s["cookies"][b] = s["cookies"].pop(a)
+        else:
+            s["cookies"][a] = s["cookies"].pop(b, "") or "mv"
     elif r < 0.6 and cookies:
         c = rng.choice(list(cookies))
         s["cookies"][c] = s["cookies"].get(c, "") + "x"
